@@ -38,7 +38,13 @@ RULE = ("per (suite, version, EtM) triple an honest sender emits 1-4 "
         "content type) to the captured stream; explicit grid = every triple "
         "x fixed transformation set, plus Hypothesis-drawn cases; level A "
         "feeds a directly keyed RecordLayer from the reference sender "
-        "(legal paddings accepted, insider malformations rejected). "
+        "(legal paddings accepted; insider malformations rejected: bad "
+        "padding byte, bit flip behind maximal padding, correct MAC over a "
+        "ciphertext too short for IV/padding/MAC, SSLv3 padding beyond one "
+        "block); level H splices an unprotected alert / handshake / "
+        "application-data record into the protected part of the handshake "
+        "at every record position (sender record size lowered so that the "
+        "flight spans many records). "
         "non-trivial = the delivered byte stream differs from the honest "
         "one in a byte the receiver parses; distinct = hash(case)")
 ASSUMPTIONS = [
@@ -184,9 +190,97 @@ def apply_transform(case, H, ctx):
     return b"".join(D)
 
 
+def check_hs(case):
+    """Level H: a record spliced into the *handshake* once the victim's
+    read direction is protected. The forged record is unprotected (alert,
+    handshake bytes, application data); the peer never sent it, so it must
+    not be acted upon: the victim has to end with a locally raised alert,
+    never with the forged alert's meaning, a clean close or a completed
+    handshake."""
+    v = tuple(case["ver"])
+    vic = case["dir"]                   # victim = receiver
+    src = "s" if vic == "c" else "c"
+    k = case["k"]
+    labels = ["H", "ver=" + vclass(v), "vic=" + vic, "forged=" + case["f"]]
+    kw = dict(minVersion=v, maxVersion=v)
+    copts = {"settings": sc.mk_settings(**kw)}
+    sopts = {"settings": sc.mk_settings(**kw), "cred": "rsa"}
+    if case.get("auth"):
+        sopts["reqCert"] = True
+        copts["cred"] = "c_rsa"
+    state = {"prot": 0, "done": False, "seen_ccs": False}
+    lvl, desc = case.get("alert", [2, 40])
+    forged = {"alert": bytes([21, 3, 3, 0, 2, lvl, desc]),
+              "hs": bytes([22, 3, 3, 0, 4, 0, 0, 0, 0]),
+              "appdata": bytes([23, 3, 3, 0, 5]) + b"hello",
+              "alert1": bytes([21, 3, 3, 0, 1, lvl])}[case["f"]]
+    if v < (3, 4):
+        forged = forged[:1] + bytes(v) + forged[3:]
+
+    def mitm(direction, idx, rec):
+        raw = rec["hdr"] + rec["body"]
+        if direction != src + "2" + vic:
+            return [raw]
+        if state["done"]:
+            return []
+        if v == (3, 4):
+            protected = rec["type"] == 23
+        else:
+            protected = state["seen_ccs"]
+            if rec["type"] == 20:
+                state["seen_ccs"] = True
+        if not protected:
+            return [raw]
+        if state["prot"] == k:
+            state["done"] = True
+            return [forged]
+        state["prot"] += 1
+        return [raw]
+    DET.reseed("C02-H", v, vic, case.get("auth"))
+    rs = case.get("rs")
+
+    def prepare(cc, scn):
+        # a small sender record size splits the protected flight into many
+        # records, so every k is a real position
+        if rs:
+            (cc if src == "c" else scn).recordSize = rs
+    p = sc.connect(copts, sopts, mitm=mitm, prepare=prepare)
+    if not state["done"]:
+        return good(nt=False, labels=labels + ["not-reached"])
+    out = p.co if vic == "c" else p.so
+    labels.append("k=%d" % k)
+    if v == (3, 4) and k == 0 and case["f"] in ("alert", "alert1"):
+        # the first record of the handshake epoch may legitimately be an
+        # unprotected alert (the peer may have failed before it had keys)
+        return good(nt=False, labels=labels + ["either"])
+    if out.ok:
+        return bad("forged-handshake-record-ignored:%s:%s" % (
+            vclass(v), case["f"]),
+            "victim %s completed the handshake although record %d of the "
+            "protected flight was replaced by %s" % (vic, k, forged.hex()),
+            labels=labels)
+    e = out.exc
+    if isinstance(e, TLSLocalAlert):
+        return good(labels=labels + ["local=" + str(e.description)])
+    if isinstance(e, TLSRemoteAlert) or e is None:
+        return bad("forged-plaintext-record-accepted:%s:%s" % (
+            vclass(v), case["f"]),
+            "victim %s acted on the unprotected record %s spliced in as "
+            "protected record %d: %s" % (vic, forged.hex(), k,
+                                         describe_exc(e) if e else out),
+            labels=labels)
+    if isinstance(e, (TLSAbruptCloseError,)):
+        # the victim waits for more and sees our EOF: it did not accept it
+        return good(labels=labels + ["eof"])
+    return bad("forged-handshake-record:%s" % type(e).__name__,
+               describe_exc(e), labels=labels)
+
+
 def check(case):
     if case.get("level") == "A":
         return check_rl(case)
+    if case.get("level") == "H":
+        return check_hs(case)
     sid, v, etm = case["suite"], tuple(case["ver"]), case["etm"]
     suite = iana.SUITES[sid]
     salt = case.get("salt", 0)
@@ -488,7 +582,9 @@ def check_rl(case):
         peer.chain_iv = enc[-bs:]
         peer.seq += 1
         wire = bytes([23, 3, 0]) + len(enc).to_bytes(2, "big") + enc
-        expect_ok = False
+        # (a length byte equal to the block size - padding of block+1
+        # bytes in all - is where readings of the SSLv3 text differ: either)
+        expect_ok = None if pl == bs else False
     elif m == "wrong_seq":
         peer.seq += 1 + case["pad"] % 3
         wire = rr.protect(peer, 23, msg)
@@ -609,8 +705,21 @@ def caseA(draw, tier):
             "salt": draw(st.integers(0, 5))}
 
 
+@st.composite
+def caseH(draw, tier):
+    return {"level": "H", "ver": list(draw(st.sampled_from(
+        [(3, 1), (3, 3), (3, 4), (3, 4)]))),
+        "dir": draw(st.sampled_from(["c", "s"])),
+        "k": draw(st.integers(0, 12)), "auth": draw(st.booleans()),
+        "rs": draw(st.sampled_from([None, 64, 64, 300])),
+        "f": draw(st.sampled_from(["alert", "alert", "hs", "appdata",
+                                   "alert1"])),
+        "alert": [draw(st.sampled_from([1, 2])),
+                  draw(st.sampled_from([0, 10, 20, 40, 42, 80, 90, 100]))]}
+
+
 def strategy(tier):
-    return st.one_of(caseB(tier), caseB(tier), caseA(tier))
+    return st.one_of(caseB(tier), caseB(tier), caseA(tier), caseH(tier))
 
 
 def budget(tier):
@@ -632,6 +741,18 @@ def explicit(tier, seed):
         {"t": "empty_record", "ctype": 23},
         {"t": "empty_record", "ctype": 21},
     ]
+    for v in ((3, 4), (3, 3), (3, 1)):
+        for d in "cs":
+            for auth in (False, True):
+                for k in range(6):
+                    for f, al in (("alert", [2, 40]), ("alert", [1, 0]),
+                                  ("hs", None), ("appdata", None)):
+                        c = {"level": "H", "ver": list(v), "dir": d, "k": k,
+                             "auth": auth, "f": f,
+                             "rs": [None, 64, 200][k % 3] if k < 3 else 64}
+                        if al:
+                            c["alert"] = al
+                        yield c
     tr = triples()
     for k, (sid, v, etm) in enumerate(tr):
         if iana.SUITES[sid].cipher == "3des" and tier == "quick" and k % 3:
